@@ -21,9 +21,9 @@ UNQ = ["a", "a1_", "-Dx=y", "a;b", "a\;b", "a\\ b", "\\#", "\\(", "\\\"", "\\\\"
        "@v@", "<t>", "$<g:e>", "a$b", "[x]", "x[1]", "]]", "[", "a=b", "ü",
        # characters that Python's str.splitlines()/isspace() treat as separators but CMake as ordinary text
        "a\x0cb", "a\u2028b", "a\x85b", "a\x0bb", "a\xa0b", "*values", "x**2", "out[", "a|b+c?", "^x$"]
-QUO = ['"x\x0cy\u2029z"', '""', '"a b"', '"a#b"', '"a;b"', '"(x)"', '"[[x]]"', '"\\"q\\""', '"\\(x\\)"', '"l1\nl2"', '"c\\\nd"', '"ü✓"']
-BRA = ["[=[\n]=]", "[[\n]]", "[[a]]", "[[a;b]]", "[[a(b]]", '[[ "x ]]', "[=[a]]b]=]", "[==[\nx\n]==]", "[[#c]]"]
-PAR = ["()", "(a)", "(a (b))", "((a) b)"]
+QUO = ['"\n#[[[ usage\n#]]\n"', '"x\x0cy\u2029z"', '""', '"a b"', '"a#b"', '"a;b"', '"(x)"', '"[[x]]"', '"\\"q\\""', '"\\(x\\)"', '"l1\nl2"', '"c\\\nd"', '"ü✓"']
+BRA = ["[[\n#[[[ usage\n]]", "[=[\n]=]", "[[\n]]", "[[a]]", "[[a;b]]", "[[a(b]]", '[[ "x ]]', "[=[a]]b]=]", "[==[\nx\n]==]", "[[#c]]"]
+PAR = ["()", "(a)", "(a (b))", "((a) b)", "(a (b c))", "((a AND (b OR c)) OR NOT (d))"]
 LEX = UNQ + QUO + BRA + PAR
 CORE = ["a", "a\;b", "\\#", "${v}/x", "[x]", "]]", '""', '"a#b"', '"(x)"', '"c\\\nd"', "[[a(b]]", "[=[a]]b]=]", "()",
         "(a (b))", "ü"]
@@ -32,6 +32,7 @@ NAMES = ["set", "message", "if", "My_Cmd1", "generic_command", "CMAKE_PARSE_ARGU
 COMMENTS = [" ", "\n", "\n\n", " # c\n", "#\n", "#[\n", "#[=\n", "#[=x\n", "# #[[[ x\n", "#]]\n", "# set(A 1)\n",
             "#[[ b ]]", "#[[ #[[[ x ]]", "#[=[ ]] ]=]", "#[==[\nmulti\n]==]", "# café ✓\n", "#[[[x]]",
             "#[[[x]]\n#]]\n", "#[=[[x]=]", "#[[\n]]", "#[[]]", "# \"unterminated\n", "#(\n", "#\\q\n",
+            "#[==[\n#[[[\n# doc\n#]]\nfunction(f)\nendfunction()\n]==]", "#[=[\n  #[[[ @module x\n]=]",
             "# path C:\\tools\\\n", "#\\\n", "# ff\x0c set(Z 1)\n", "# ls\u2028 stray (\n", "#[[ nel\x85 ]]", "# vt\x0b\"\n"]
 
 
@@ -179,7 +180,8 @@ def processor_files():
         for case in ("lower", "upper", "mixed"):
             sp = cmakegen.case_of(n, case)
             for doc in ("", d):
-                for args in ("a", "a b", "a b c", "NAME a", "m C int", "NAME a EXPECTFAIL"):
+                for args in ("a", "a b", "a b c", "NAME a", "m C int", "NAME a EXPECTFAIL", 'PARSE_ARGV ${n} P "" "" ""',
+                             'PARSE_ARGV "1" P "" "" ""', "${x} ${y}", '"" ""'):
                     cmd = f"{doc}{sp}({args})"
                     if n in ("function", "macro"):
                         cmd += f"\nend{n}()"
